@@ -24,6 +24,7 @@ def check(model, R, tier):
     K.check_unbroadcast(model, R, ops, 'C01')
     kernels = [model.func(d) for d in sorted({d for o in ops for d, _, _ in o.bwd_calls})]
     K.check_scatter(model, R, kernels, 'C01', floor=3)
+    K.check_viewstore(model, R, [f_ for f_ in model.module_functions('synapgrad.cpu_ops')] + ([f_ for f_ in model.module_functions('synapgrad.conv_tools')] if 'C01' == 'C02' else []), 'C01')
     K.check_reduce(model, R, 'C01', ['synapgrad.cpu_ops.%s_backward' % n for n in ('sum', 'mean', 'max', 'min')])
     K.check_mean_divisor(model, R, 'C01')
     from sa import deriv
